@@ -6971,7 +6971,8 @@ impl<T: Deserialize + Packed> Deserialize for Vec<T> {
                 Err(SavefileError::MemoryAllocationLayoutError)
             }?;
             let ptr = if elem_size == 0 {
-                NonNull::dangling().as_ptr()
+                // Must be aligned for T, even if T is zero-sized
+                NonNull::<T>::dangling().as_ptr() as *mut u8
             } else {
                 let ptr = unsafe { std::alloc::alloc(layout) };
                 if ptr.is_null() {
